@@ -202,10 +202,26 @@ def run_queries(ctx, rng, count):
     fails, diffs, reqs, meta = [], [], [], []
     for _ in range(count):
         t = rand_tree(rng, maxdepth=rng.choice([1, 2, 3, 4]))
-        impl.reset()
-        root = impl.build(t)
         x = rng.choice(["a", "b", "title", "para", "x", "zz"])
         path = [rng.choice(["a", "b", "title", "para", "x"]) for _ in range(rng.randint(0, 3))]
+        if rng.random() < 0.6:
+            # few names, so same-named siblings abound, and a path that really leads somewhere: the name path of a random
+            # node (the first same-named sibling at some level then often lacks the rest of the path)
+            def rename(n):
+                n[1] = rng.choice(["a", "a", "b"])
+                for k in n[8]:
+                    rename(k)
+            rename(t)
+            paths = []
+            def collect(n, acc):
+                for k in n[8]:
+                    paths.append(acc + [k[1]]); collect(k, acc + [k[1]])
+            collect(t, [])
+            if paths:
+                path = rng.choice(paths)
+                x = rng.choice(["a", "b", "zz"])
+        impl.reset()
+        root = impl.build(t)
         pre = q_spec(t)
         kids = t[8]
         # implementation
